@@ -224,7 +224,7 @@ def rule_c(ctx, ix):
 
 def rule_d(ctx, ix):
     R = 'C18.d'
-    ctx.describe(R, 'viewer / picker / layer-artist modules: no loop mutates the live collection it iterates', floor=100)
+    ctx.describe(R, 'viewer / picker / layer-artist modules: no loop mutates the live collection it iterates', floor=60)
     from ..index import Func
     nloops = 0
     used = set()
